@@ -66,6 +66,8 @@ Definition agree_c (x : hcase) : bool :=
               ("ping timeout") or because the transport was closed under it before that;
       kind 1  client, no ping arrived after t0: closed by t0 + I + T + 2D, same reasons;
       kind 2  live peer: not closed at all during the observation;
+      kind 5  live peer, client side: not closed, and pings keep flowing: the latest ping (t0) is no
+              older than I + 3D when the observation ends;
       kind 3/4 as 0/1 when BOTH directions are black-holed: nothing but the heartbeat can have
               closed the socket, so the reason must be "ping timeout". *)
 Definition ocase := (N * Z * Z * Z * Z * option (Z * N) * Z)%type.
@@ -85,6 +87,7 @@ Definition oracle (x : ocase) : bool :=
            | None => t_end <=? t0 + pI + pT + 2 * pD
            end
   | 2%N => match cl with None => true | Some _ => false end
+  | 5%N => match cl with None => t_end - t0 <=? pI + 3 * pD | Some _ => false end
   | 3%N => match cl with
            | Some (t, k) => (t <=? t0 + pI + pT + 3 * pD) && (k =? 0)%N
            | None => t_end <=? t0 + pI + pT + 3 * pD
